@@ -394,7 +394,7 @@ def _real(case, obs):
         if not ok and np.ndim(x) == 1 and ref_at is not None:
             # line searches produce points closer than the plug-in's own allclose tolerance (rtol 1e-5, atol 1e-8): such a point
             # IS the cached point for the plug-in (the quantifier only speaks about identical or well separated points)
-            for p in recent[-6:]:
+            for p in reversed(recent):   # the cached point may be many requests back: a converging line search stays within the tolerance
                 if p.shape == np.shape(x) and np.allclose(x, p, rtol=1e-5, atol=1e-8) and np.allclose(np.ravel(got), np.ravel(ref_at(p)), rtol=1e-8, atol=1e-8):
                     ok = True
                     obs.count("real_method_point_within_cache_tolerance")
